@@ -135,9 +135,9 @@ def r18_5(run, model):
 
 
 def run(run, model):
-    r18_1(run, model)
-    r18_2(run, model)
-    r18_3(run, model)
-    r18_4(run, model)
-    r18_5(run, model)
+    run.try_rule(r18_1, model)
+    run.try_rule(r18_2, model)
+    run.try_rule(r18_3, model)
+    run.try_rule(r18_4, model)
+    run.try_rule(r18_5, model)
     run.assume("numeric leaves go through *_to_string, whose verbs are checked by C10 R10.4")
